@@ -164,12 +164,11 @@ namespace rkcommon {
     template <typename KEY, typename VALUE>
     inline void FlatMap<KEY, VALUE>::erase(const KEY &key)
     {
-      auto itr = std::stable_partition(
-          values.begin(), values.end(), [&](const item_t &i) {
-            return i.first != key;
-          });
-
-      values.resize(std::distance(values.begin(), itr));
+      // (keys are unique; 'key' may be the key object stored in the map, which
+      // must not be moved from while entries are still compared with it)
+      auto itr = lookup(key);
+      if (itr != values.end())
+        values.erase(itr);
     }
 
     template <typename KEY, typename VALUE>
